@@ -8,6 +8,7 @@ import (
 	"encoding/json"
 	"math/big"
 	"sync"
+	"time"
 
 	"github.com/uptrace/bun"
 
@@ -48,6 +49,20 @@ type Fake struct {
 	Outdated bool
 	// tx bookkeeping for atomic bulks
 	txOpen, committed, rolledBack bool
+	// imports in flight (the import handler runs Import in its own goroutine and may
+	// answer before it returns): WaitImports makes what they record deterministic
+	imports sync.WaitGroup
+}
+
+// WaitImports waits (bounded) for every running Import to return; call it after
+// the request context is cancelled and before reading Calls.
+func (f *Fake) WaitImports(d time.Duration) {
+	done := make(chan struct{})
+	go func() { f.imports.Wait(); close(done) }()
+	select {
+	case <-done:
+	case <-time.After(d):
+	}
 }
 
 func NewFake() *Fake { return &Fake{Inject: map[string]error{}} }
@@ -470,6 +485,8 @@ func (l *FakeLedger) DeleteAccountMetadata(ctx context.Context, p ledgercontroll
 // injected error is due, or the context ends. Receiving at least one log counts
 // as a write (the real import commits log by log).
 func (l *FakeLedger) Import(ctx context.Context, stream chan ledger.Log) error {
+	l.f.imports.Add(1)
+	defer l.f.imports.Done()
 	n := 0
 	inj := l.f.Inject["Import"]
 	for {
